@@ -330,14 +330,16 @@ Section Render.
   (* the specification *)
   Definition spec_render (s : text) : res text := build get_field_spec 2 s.
   (* render_func *)
+  (* every way str.format rejects the string (KeyError, IndexError, ValueError, AttributeError, TypeError) is reported as a
+     templating error (repaired in /repo: before, only KeyError was) *)
   Definition py_render (s : text) : res text :=
     match py_format (dot_hack s) with
-    | Err EKey => Err ETemplater
+    | Err _ => Err ETemplater
     | r => r
     end.
   Definition spec_process (s : text) : res text :=
     match spec_render s with
-    | Err EKey => Err ETemplater
+    | Err _ => Err ETemplater
     | r => r
     end.
 End Render.
